@@ -2,6 +2,7 @@ CONSTANTS
   Sides = {"client", "server"}
   MaxSid = 3
   MaxFrames = 8
+  MinFrames = 0
   Names = {"a"}
   BodyPlans <- PlansTiny
   DataCuts = {3}
